@@ -42,7 +42,7 @@ CONSTANTS
   Msgs,        \* [Side -> Seq([ch |-> Nat, n |-> Nat])] messages each side's application submits
   InitTsnA, InitTsnB,   \* sets of initial TSNs
   MaxRtx, MaxT1, Win,
-  \* Deviations (declared in SctpOps): subset of {"SetupOverwrite", "FwdPlainCompare"}
+  \* Deviations (declared in SctpOps): subset of {"SetupOverwrite", "DataBeforeEstablished", "FwdPlainCompare"}
   NetMode, Budget,
   Props        \* properties whose rules are switched on
 
@@ -259,14 +259,29 @@ Abandon(s) ==
              /\ NetSend(s, Pkt("FWD", s, top.tsn, x.fr, {}))   \* fr carries (ch, ssn) of the skipped message
   /\ UNCHANGED <<st, t1, t1cnt, itsn, answered, next, rx, outQ, sub, ssnOut, deliv, opens>> /\ NoFault
 
+\* handle_data.  DATA is only acted on once the association is established.  An endpoint that
+\* has a COOKIE-ECHO outstanding learns from DATA that the peer accepted it (the COOKIE-ACK was
+\* lost or is late): it completes the set-up first, so Open precedes the message.  In any other
+\* state the chunk is discarded (the peer retransmits).  The pinned code processes DATA in every
+\* state: deviation "DataBeforeEstablished".
 RecvData(s, p) ==
   /\ p \in Avail(s) /\ p.k = "DATA"
-  /\ rx[s].has
-  /\ LET r == RxData(rx[s], p.tsn, p.fr, Ordered)
-     IN /\ rx' = [rx EXCEPT ![s] = Clr(r)]
-        /\ Deliver(s, r)
-        /\ NetRecv(s, p, <<Pkt("SACK", s, r.cum, NoFrag, GapSet(r))>>)
-  /\ UNCHANGED <<st, t1, t1cnt, itsn, answered, next, sentQ, outQ, sub, ssnOut, opens>> /\ NoFault
+  /\ LET implicitAck == st[s] # "Connected" /\ s = "A" /\ t1["A"] = "Cookie"
+                         /\ "DataBeforeEstablished" \notin Deviations
+         accept == st[s] = "Connected" \/ implicitAck \/ "DataBeforeEstablished" \in Deviations
+     IN IF accept /\ rx[s].has
+        THEN LET r == RxData(rx[s], p.tsn, p.fr, Ordered)
+             IN /\ rx' = [rx EXCEPT ![s] = Clr(r)]
+                /\ Deliver(s, r)
+                /\ NetRecv(s, p, <<Pkt("SACK", s, r.cum, NoFrag, GapSet(r))>>)
+                /\ (IF implicitAck
+                    THEN /\ st' = [st EXCEPT ![s] = "Connected"]
+                         /\ opens' = [opens EXCEPT ![s] = @ + 1]
+                         /\ t1' = [t1 EXCEPT ![s] = "None"]
+                    ELSE UNCHANGED <<st, opens, t1>>)
+        ELSE /\ NetRecv(s, p, <<>>)
+             /\ UNCHANGED <<rx, deliv, st, opens, t1>>
+  /\ UNCHANGED <<t1cnt, itsn, answered, next, sentQ, outQ, sub, ssnOut>> /\ NoFault
 
 RecvFwd(s, p) ==
   /\ p \in Avail(s) /\ p.k = "FWD"
